@@ -26,6 +26,7 @@ RULE = (
     "oldest of its group; records / queues / active_size equal the model (sizes as last reported); every deletion "
     "happened while a configured limit was exceeded; after a newly reported file every limit holds. Non-trivial: a "
     "duplicate, out-of-order or missing event or a re-scan AND >= 1 expiry."
+    ' Further dimensions: watched directory named relative to the current directory, time windows (aware / naive), construction through the `drf ringbuffer` command line, verbose reports, negative size (all space except N) with a fixed file-system report, recordings at the epoch (time key 0); three LIVE scenarios with DigitalRFRingbuffer.start() and the real observer threads (sentinel protocol of vlib/live.py).'
 )
 ASSUMPTIONS = ["events are dispatched synchronously through handler.dispatch; no observer thread runs",
                "the size limit is at least the sum over groups of the largest file size (the property's quantifier)"]
